@@ -93,6 +93,10 @@ class World:
             c = Cn.DataCondition(self.model, ld, norm=2, use_full_dataset=True, name=kind)
         elif kind == "val_pinn":
             c = Cn.PINNCondition(self.model, S.GridSampler(self.dom, 3).make_static(), lambda u, x: u - x, name=kind, track_gradients=False)
+        elif kind == "val_deriv":
+            def res_d(u, x):
+                return tp.utils.grad(u, x) - torch.cos(2 * x)
+            c = Cn.PINNCondition(self.model, S.GridSampler(self.dom, 4).make_static(), res_d, name=kind)
         else:
             raise ValueError(kind)
         if iters is not None:
